@@ -241,6 +241,7 @@ type lstate struct {
 	registered   bool
 	closeCalled  bool
 	closeDone    bool
+	inAccept     bool // the application's accept loop is inside Accept (not reading from an accepted connection)
 	close2Called bool
 	close2Done   bool
 	closeErr     error
@@ -431,7 +432,9 @@ func (r *run) listenerTask(i int) {
 		rt.SetName(fmt.Sprintf("acceptor%d", i))
 		defer func() { st.acceptorDone = true }()
 		for st.accepted < l.MaxAccept {
+			st.inAccept = true
 			conn, err := ln.Accept()
+			st.inAccept = false
 			if err != nil {
 				return
 			}
@@ -543,32 +546,26 @@ func (r *run) onIdle() bool {
 				// "listener must be serviced" limitation), which is a
 				// different failure from Close blocking on its own.
 				oracle := "close-hang"
-				for j, o := range r.ls {
-					if j == i || !o.registered || o.closeCalled {
-						continue
-					}
-					q := 0
-					for k, op := range r.scn.Opens {
-						if op.Exact && op.Target == j && (r.openRes[k] == "" || strings.HasPrefix(r.openRes[k], "unanswered")) {
-							q++
-						}
-					}
-					if q >= 2 {
-						oracle = "close-hang-behind-unserviced-listener"
-					}
+				if r.behindUnserviced(i) {
+					oracle = "close-hang-behind-unserviced-listener"
 				}
 				r.c.Violate(Prop, oracle, "Close of listener %d (%s %s) never returned: the system is quiescent with Close still blocked; %d connections accepted, %d forwarded opens for it unanswered. Blocked tasks: %v", i, l.network(), l.addr(), st.accepted, pend, r.c.Sim.Unfinished())
 				return false
 			}
 			if st.close2Called && !st.close2Done {
-				r.c.Violate(Prop, "close-hang", "the second Close of listener %d (%s %s) never returned. Blocked tasks: %v", i, l.network(), l.addr(), r.c.Sim.Unfinished())
+				// a second Close sends its cancel request like the first one
+				oracle := "close-hang"
+				if r.behindUnserviced(i) {
+					oracle = "close-hang-behind-unserviced-listener"
+				}
+				r.c.Violate(Prop, oracle, "Close of listener %d (%s %s) never returned: the system is quiescent with Close still blocked (it is the second Close of this listener). Blocked tasks: %v", i, l.network(), l.addr(), r.c.Sim.Unfinished())
 				return false
 			}
 			if st.closeDone && st.postAccept == "" {
 				r.c.Violate(Prop, "accept-after-close-hang", "Accept issued after Close of listener %d (%s %s) never returned. Blocked tasks: %v", i, l.network(), l.addr(), r.c.Sim.Unfinished())
 				return false
 			}
-			if st.closeDone && !st.acceptorDone {
+			if st.closeDone && !st.acceptorDone && st.inAccept {
 				r.c.Violate(Prop, "accept-after-close-hang", "the application's Accept on listener %d (%s %s) is still blocked after Close returned. Blocked tasks: %v", i, l.network(), l.addr(), r.c.Sim.Unfinished())
 				return false
 			}
@@ -595,6 +592,27 @@ func (r *run) onIdle() bool {
 		}
 		rt.Wake(&r.ctl)
 		return true
+	}
+	return false
+}
+
+// behindUnserviced: is another listener still open whose application does
+// not accept, with two or more forwards queued for it? Then the connection's
+// read loop is blocked behind that listener.
+func (r *run) behindUnserviced(i int) bool {
+	for j, o := range r.ls {
+		if j == i || !o.registered || o.closeCalled {
+			continue
+		}
+		q := 0
+		for k, op := range r.scn.Opens {
+			if op.Exact && op.Target == j && (r.openRes[k] == "" || strings.HasPrefix(r.openRes[k], "unanswered")) {
+				q++
+			}
+		}
+		if q >= 2 {
+			return true
+		}
 	}
 	return false
 }
